@@ -12,7 +12,8 @@ if os.path.exists(os.path.join(vlib.VERIF, "tools", "translate.py")):
     import translate
     translate.regenerate_all()
 vlib.write_coqproject()
-ok, out = vlib.coq_make([], timeout=3000)
+targets = [f[:-2] + '.vo' for f in vlib.coq_files() if f.startswith('Properties/')] + vlib.model_vos()
+ok, out = vlib.coq_make(targets, timeout=3000)
 print(out[-3000:])
 if not ok:
     sys.exit("coq build failed")
